@@ -14,6 +14,7 @@
 #include <unistd.h>
 #include <signal.h>
 #include <fcntl.h>
+#include <poll.h>
 #include <sys/socket.h>
 #include <netinet/in.h>
 #include <arpa/inet.h>
@@ -22,6 +23,7 @@
 #include <event2/util.h>
 #include <event2/bufferevent.h>
 #include <event2/buffer.h>
+#include <event2/thread.h>
 #include "util-internal.h"
 #include "event-internal.h"
 #include "bufferevent-internal.h"
@@ -1339,6 +1341,91 @@ static void case_dispatch(vh_rng *r, const char *method)
 	event_base_free(base);
 }
 
+
+/* ---- end to end, threaded-poll variant (added after seeded defect C46-2 was missed): with locking enabled poll_dispatch
+ * scans a snapshot of nfds slots while other threads may register more descriptors; the start index must be chosen inside
+ * the snapshot.  Registrations "from another thread" are made from the wait hook, which runs while the loop has released
+ * the base lock inside poll().  Phase A makes extra pipes readable and registered (so stale POLLIN results exist in the
+ * private copy of the table), phase B removes them, drains them, and re-registers them during the next wait: any callback
+ * for such an (empty) descriptor means a slot outside the snapshot was scanned. */
+#define X_MAX 24
+static struct event_base *x_base;
+static struct event *x_ev[X_MAX];
+static int x_rfd[X_MAX], x_wfd[X_MAX], x_n, x_phaseb, x_added_in_hook, x_fired_unready;
+int __real_poll(struct pollfd *, nfds_t, int);
+static void x_cb(evutil_socket_t fd, short what, void *arg)
+{
+	char c; struct pollfd p; (void)what; (void)arg;
+	p.fd = fd; p.events = POLLIN; p.revents = 0;
+	if (__real_poll(&p, 1, 0) <= 0 || !(p.revents & POLLIN)) x_fired_unready++;
+	else if (__real_read(fd, &c, 1) != 1) x_fired_unready++;
+}
+static void x_wait_hook(int kind, int64_t timeout_us, void *a, void *b, void *c, int n)
+{
+	int i;
+	(void)kind; (void)timeout_us; (void)a; (void)b; (void)c; (void)n;
+	if (!x_phaseb || x_added_in_hook) return;
+	x_added_in_hook = 1;
+	for (i = 0; i < x_n; i++) event_add(x_ev[i], NULL);   /* "another thread" registers while we sit in poll() */
+}
+static void case_dispatch_mt(vh_rng *r)
+{
+	static int threads_on;
+	struct event_config *cfg = event_config_new();
+	struct event *rev[E2E_MAX];
+	int wfd[E2E_MAX], n = (int)vh_range(r, 1, 24), i, round;
+	if (!threads_on) { evthread_use_pthreads(); threads_on = 1; }
+	event_config_avoid_method(cfg, "epoll");
+	if (!vclk_on) vclk_enable(1000000);
+	vclk_wait_hook = x_wait_hook;
+	x_base = event_base_new_with_config(cfg);
+	event_config_free(cfg);
+	if (!x_base || strcmp(event_base_get_method(x_base), "poll")) { vh_stat("e2e_backend_unavailable"); if (x_base) event_base_free(x_base); return; }
+	for (i = 0; i < n; i++) {
+		int p[2];
+		if (__real_pipe2(p, O_NONBLOCK | O_CLOEXEC)) { n = i; break; }
+		e2_rfd[i] = p[0]; wfd[i] = p[1];
+		rev[i] = event_new(x_base, p[0], EV_READ | EV_PERSIST, e2_read_cb, (void *)(intptr_t)i);
+		event_add(rev[i], NULL);
+	}
+	x_n = (int)vh_range(r, 1, X_MAX);
+	for (i = 0; i < x_n; i++) {
+		int p[2];
+		if (__real_pipe2(p, O_NONBLOCK | O_CLOEXEC)) { x_n = i; break; }
+		x_rfd[i] = p[0]; x_wfd[i] = p[1];
+		x_ev[i] = event_new(x_base, p[0], EV_READ | EV_PERSIST, x_cb, NULL);
+	}
+	for (round = 0; round < 6; round++) {
+		uint32_t target;
+		int nready = 0;
+		/* phase A: extras registered normally and readable -> their slots in the table copy carry POLLIN */
+		x_phaseb = 0; x_fired_unready = 0;
+		for (i = 0; i < x_n; i++) { event_add(x_ev[i], NULL); if (__real_write(x_wfd[i], "y", 1) != 1) {} }
+		event_base_loop(x_base, EVLOOP_NONBLOCK);
+		for (i = 0; i < x_n; i++) event_del(x_ev[i]);
+		/* phase B: some base descriptors ready, extras (now empty) re-registered during the wait */
+		memset(e2_fired, 0, sizeof(e2_fired)); e2_norder = 0;
+		for (i = 0; i < n; i++) if (vh_chance(r, 1, 2)) { if (__real_write(wfd[i], "x", 1) == 1) nready++; else e2_fired[i] = -1000; }
+		/* steer the start index to the top of whatever range the backend draws from */
+		target = vh_chance(r, 1, 2) ? (0x7fffffffu / (uint32_t)(n + x_n)) * (uint32_t)(n + x_n) - 1 - (uint32_t)vh_below(r, 3) : ((uint32_t)vh_rand(r) & 0x7fffffff);
+		x_base->weakrand_seed.seed = lcg_preimage(target);
+		x_phaseb = 1; x_added_in_hook = 0;
+		event_base_loop(x_base, EVLOOP_NONBLOCK);
+		x_phaseb = 0;
+		vh_stat("e2e_mt_rounds"); vh_stat_add("e2e_mt_registrations_during_wait", x_added_in_hook ? x_n : 0); vh_stat_add("e2e_ready_fds", nready);
+		if (x_fired_unready)
+			VIOL("C46:e2e-unready-fd-dispatched", "threaded poll backend: %d callback(s) for descriptors registered during the wait that were not readable (table snapshot %d, %d registered meanwhile, raw %u)",
+			     x_fired_unready, n, x_n, target);
+		for (i = 0; i < x_n; i++) event_del(x_ev[i]);
+		{ uint64_t h = vh_hash_bytes(977, &target, 4); h = vh_hash_bytes(h, &n, 4); h = vh_hash_bytes(h, &x_n, 4); if (nready) vh_distinct(h + (uint64_t)round); }
+		vh_stat("cases");
+	}
+	for (i = 0; i < n; i++) { event_free(rev[i]); __real_close(e2_rfd[i]); __real_close(wfd[i]); }
+	for (i = 0; i < x_n; i++) { event_free(x_ev[i]); __real_close(x_rfd[i]); __real_close(x_wfd[i]); }
+	event_base_free(x_base); x_base = NULL;
+	vclk_wait_hook = NULL;
+}
+
 /* ---- end to end: first member served in a rate-limit group ---- */
 static void case_group(vh_rng *r)
 {
@@ -1434,6 +1521,7 @@ int main(int argc, char **argv)
 		else if (mode_is("rng")) case_rng(idx);
 		else if (mode_is("poll")) case_dispatch(&r, "poll");
 		else if (mode_is("select")) case_dispatch(&r, "select");
+		else if (mode_is("pollmt")) case_dispatch_mt(&r);
 		else if (mode_is("group")) case_group(&r);
 		else { fprintf(stderr, "h_util: unknown mode\n"); return 2; }
 	}
